@@ -238,6 +238,12 @@ func Run(cfg Config, ops []Op, tr *Trace) {
 	for i, op := range ops {
 		st := &Step{Op: op, At: vrt.NowQuiet().Sub(vrt.Epoch)}
 		tr.Steps = append(tr.Steps, st)
+		if stopped && op.K == "A" {
+			// after the shutdown only the clock moves on
+			vrt.Sleep(op.D)
+			observe(st, -1)
+			continue
+		}
 		if stopped {
 			st.Skipped = true
 			continue
